@@ -35,6 +35,7 @@ type Contract struct {
 	Ensures  []Clause
 	Modifies []string // heap specs ("Table.Rows", "[]TableRow", "*"); nil + !HasModifies => inferred
 	HasModifies bool
+	ModBuilders []Clause // "modifies sb(<expr>)": strings.Builder locations whose ghost content the function may change
 	Loops    map[int]*LoopSpec
 	Inline   bool // verified at each call site by inlining its body
 	Trusted  bool // contract assumed, body not verified (listed as assumption)
@@ -322,6 +323,16 @@ func (cs *ContractSet) loadFile(path string) error {
 			cur.HasModifies = true
 			for _, m := range strings.Split(r.text, ",") {
 				m = strings.TrimSpace(m)
+				if strings.HasPrefix(m, "sb(") && strings.HasSuffix(m, ")") {
+					// sb(w.output): the ghost content of this strings.Builder may change (every other builder that
+					// existed at entry keeps its content: obligation frame:builders, assumed at call sites)
+					e, err := ParseSpec(strings.TrimSpace(m[3 : len(m)-1]))
+					if err != nil {
+						return fmt.Errorf("%s:%d: %v", path, r.line, err)
+					}
+					cur.ModBuilders = append(cur.ModBuilders, Clause{Text: m, Expr: e, Line: r.line, File: path})
+					continue
+				}
 				if m != "" && m != "nothing" {
 					cur.Modifies = append(cur.Modifies, m)
 				}
